@@ -1,4 +1,5 @@
 import Tibc.Props.C03
+import Tibc.Expect.Packet
 #print axioms Tibc.C03.ack_accepted_authentic
 #print axioms Tibc.C03.ack_writes_only_after_verification
 #print axioms Tibc.C03.ack_deletes_commitment
